@@ -21,34 +21,34 @@ CHECKS = {
          "Long generated histories on bounded files that never enable the overflow area; at every quiescent point allocatable(probe)+live+meta+2 == max pages, FileStats from the Observer equal harness truth, no page below the end marker is unowned, and the simulated disk's maximum extent stays within the configured size.",
          "DESIGN.md 4 (C11)", SIM),
  "C14": ("exploration", "runtime monitoring: model differential across resize-on-open + lock-state hook + allocation probe + max file extent on the simulated disk",
-         "Generated prefix histories x (old max, new max, prealloc) x follow-up histories; after the resizing Open the hooked lock state must be idle (then both transaction kinds are started), contents equal the model, growth adds exactly the new pages to the probe capacity, after shrink the simulated disk's extent stays <= max(previous extent, new limit), and a later plain open reports the new limit; half of the cases resize twice, a third inject an I/O fault into the resizing Open.",
+         "Generated prefix histories x (old max, new max, prealloc) x follow-up histories; after the resizing Open the hooked lock state must be idle (then both transaction kinds are started), contents equal the model, growth adds exactly the new pages to the probe capacity, after shrink the simulated disk's extent stays <= max(previous extent, new limit), and a later plain open reports the new limit; half of the cases resize twice, a third inject an I/O fault into the resizing Open (the File it returns is used, then a plain open must already report the new limit); grows also start from files whose meta area spilled into the overflow area.",
          "DESIGN.md 4 (C14)", SIM),
  "C15": ("exploration", "runtime monitoring: exhaustive method x lifecycle-state matrix executed under recover() with a model oracle before/after",
-         "The finite matrix of invalid calls (Tx, Page and queue methods x receiver states) is enumerated completely; each cell runs after sampled PRNG prefix histories under recover(); oracle: no panic, returns, documented error kind, transaction view and committed state unchanged (model differential, continuing+committing, reopen). Exhaustive over cells, sampled over prefixes.",
+         "The finite matrix of invalid calls (Tx, Page and queue methods x receiver states) is enumerated completely; each cell runs after sampled PRNG prefix histories under recover(); oracle: no panic, returns, documented error kind, transaction view and committed state unchanged (model differential, continuing+committing, reopen). Includes read-only transactions begun beside a writer that extended the file, pages allocated+freed+re-fetched in one transaction, and queue calls after a Close whose flush failed. Exhaustive over cells, sampled over prefixes.",
          "DESIGN.md 4 (C15), Appendix A", SIM),
  "C08": ("fault_enumeration", "runtime monitoring: fault-plan injection on the simulated disk + model oracle after every transaction + lock-state hook + reopen rule computed from the op log",
-         "Each case injects one fault plan (kind x call index from a dry run x burst x mode) into a generated history; monitors: no panic, Commit==nil implies no failed write/sync in its window, read transactions keep seeing the last successful commit, locks idle, failed Open releases the path lock, fresh transactions commit once faults stop, reopen shows the last success or the attempt whose only failure was its final sync. Sampled (quick) to near-complete per short history (thorough) enumeration of call indices.",
+         "Each case injects one fault plan (kind x call index from a dry run x burst x mode) into a generated history; monitors: no panic, Commit==nil implies no failed write/sync in its window, read transactions keep seeing the last successful commit, locks idle, failed Open releases the path lock, fresh transactions commit once faults stop, reopen shows the last success or the attempt whose only failure was its final sync; the allocator still partitions the file after every transaction; an I/O error must stem from an I/O call that failed while the transaction was open; every 7th case uses SyncNone; after a failed remap transactions and Close must not leak locks. Sampled (quick) to near-complete per short history (thorough) enumeration of call indices.",
          "DESIGN.md 4 (C08)", SIM + "; two genuine defects are recorded in known_findings.json (post-durable remap failure, recycled pages of a failed-final-sync attempt) and reported as KNOWN-FINDING"),
  "C01": ("fault_enumeration", "runtime monitoring: offline crash-image recovery oracle over the recorded I/O log of the simulated disk (every I/O boundary x lost-write subsets x torn header cuts), images reopened through the real open path",
-         "For each generated history every I/O boundary of the recorded op log is crashed: durable prefix + subsets of the writes pending since the last successful sync (complete powerset for small n, structured + PRNG subsets beyond), header writes torn at byte cuts; every image is opened by the real code and must recover to the last successful commit or the commit in progress, byte-exact against the recorded model state, with a sane allocator and working follow-up transactions. Includes histories whose transactions exceed the writer batch buffer (sampled boundaries).",
+         "For each generated history every I/O boundary of the recorded op log is crashed: durable prefix + subsets of the writes pending since the last successful sync (complete powerset for small n, structured + PRNG subsets beyond), header writes torn at byte cuts; every image is opened by the real code and must recover to the last successful commit or the commit in progress, byte-exact against the recorded model state, with a sane allocator and working follow-up transactions. Includes histories whose transactions exceed the writer batch buffer (sampled boundaries), resize-on-open histories with their maintenance transactions, and a writer-ahead schedule in which sync requests find an empty writer queue.",
          "DESIGN.md 4 (C01)", SIM),
  "C16": ("fault_enumeration", "runtime monitoring: complete bit-flip / tear / garbage sweeps of both header slots of real images, reopened through the real open path, judged by an independent header validator",
-         "Images taken at commit boundaries of generated histories; for both slots all 672 single-bit flips, all 83 prefix tears, zero/garbage/random damage, slot copies, both slots damaged and txid wrap-around pairs are opened by the real code; the harness' own header validation decides the required winner; contents must equal the recorded state of that txid; no panic.",
+         "Images taken at commit boundaries of generated histories and of never committed files; the untouched older slot must itself be a valid header; for both slots all 672 single-bit flips, all 83 prefix tears, zero/garbage/random damage, slot copies, both slots damaged and txid wrap-around pairs are opened by the real code; the harness' own header validation decides the required winner; contents must equal the recorded state of that txid; no panic.",
          "DESIGN.md 4 (C16)", SIM),
  "C02": ("exploration", "runtime monitoring: stamped-snapshot oracle in concurrent readers + porcupine linearizability check of the begin/commit history + Go race detector over a simulated (aliasing, poisoned-on-unmap) mmap, with yields injected at commit hook points",
-         "Free-running 1 writer x 1-4 readers under the race detector; every page carries (page, commit seq), readers verify the complete version vector of the state named by the root page twice per transaction; states of aborted/failed transactions and poisoned (unmapped) memory are violations; the begin/commit history is checked with porcupine; evidence lists the (reader event @ writer commit point) pairs observed. Sampled interleavings, not enumerated.",
+         "Free-running 1 writer (overwriting or copy-on-write: free+allocate+new root) x 1-4 readers under the race detector; every page carries (page, commit seq), readers verify the complete version vector of the state named by the root page twice per transaction; states of aborted/failed transactions and poisoned (unmapped) memory are violations; the begin/commit history is checked with porcupine; evidence lists the (reader event @ writer commit point) pairs observed. Sampled interleavings, not enumerated.",
          "DESIGN.md 4 (C02)", SIM + "; Go race detector; porcupine v1.3.0"),
  "C09": ("exploration", "runtime monitoring: Go race detector + writer-count monitor on hook events + lock-state hook at quiescent points + state-based deadlock detector over N readers x M writers x Close stress; plus a cooperative scheduler enumerating preemption-bounded schedules of small actor sets on the real code",
-         "Free-running N readers x M writers (commit/rollback/close/failing commit) plus a concurrent File.Close and open-time max-size updates, always under the race detector with an Observer; monitors: at most one active writer (hook events), lock state idle when no transaction is open, deadlock declared only from state facts (no progress, all workers parked on go-txfile locks), any race report is a violation. Every 4th case is a strict cooperative scheduler run: actor sets {readers, writers, closer} stepped one at a time at API boundaries and lock-adjacent hook points, would-block predicates evaluated on the hooked lock state, all schedules with a bounded number of preemptions enumerated depth-first (deadlock = no enabled actor).",
+         "Free-running N readers x M writers (commit/rollback/close/failing commit) plus a concurrent File.Close and open-time max-size updates, always under the race detector with an Observer; monitors: at most one active writer (hook events), lock state idle when no transaction is open, deadlock declared only from state facts (no progress, all workers parked on go-txfile locks), any race report is a violation. Every 4th case is a strict cooperative scheduler run: actor sets {readers, writers, closer} stepped one at a time at API boundaries and lock-adjacent hook points, would-block predicates attached to lock-level hook points and evaluated on the hooked lock state, lock-state invariants at every decision point (readers only blocked by a commit or by Close holding the reserved lock; Close holds the pending lock when it unmaps), all schedules with a bounded number of preemptions enumerated depth-first (deadlock = no enabled actor).",
          "DESIGN.md 4 (C09)", SIM + "; Go race detector"),
  "C18": ("exploration", "runtime monitoring on the real OS file system: independent flock probes + logical-clock ordering of waiting opens + strace syscall fault injection (thorough)",
-         "Generated open/second-open/waiting-open/failing-open/close sequences on real temp files; an independent flock probe decides whether the path lock is held or free after every step; failing opens cover invalid options, damaged/truncated files, out-of-range meta roots and size errors; the thorough tier adds helper processes with pwrite/fsync/mmap/ftruncate/fstat/openat failures injected by strace during initialisation.",
+         "Generated open/second-open/waiting-open/failing-open/close sequences on real temp files; an independent flock probe decides whether the path lock is held or free after every step; failing opens cover invalid options, damaged/truncated files, out-of-range meta roots, size errors and failing creations of new files; opens vary Readonly/SyncData; the thorough tier adds helper processes with pwrite/fsync/mmap/ftruncate/fstat/openat failures injected by strace during initialisation.",
          "DESIGN.md 4 (C18)", "trusted: advisory flock semantics of the sandbox file system; strace injection may hit the Go runtime (then inconclusive)"),
  "C05": ("exploration", "runtime monitoring: model-based differential execution of the queue through its public Writer/Reader/ACK API with unique event contents (+race detector slice)",
          "Generated programs (boundary-size table, streamed writes, partial reads, flush timings, ACKs, reopen; page and buffer sizes) run against a sequential event-list model; every Next size and Read byte range is compared, end-of-queue must lie in the flushed bracket, final close/reopen/drain delivers every completed event.",
          "DESIGN.md 5 (C05)", SIM),
  "C12": ("exploration", "runtime monitoring: fill-to-error/drain cycles on small bounded simulated disks with the event model as oracle and a space bound evaluated on the allocator snapshot hook after every ACK",
-         "Producer/consumer histories pushing >=12x (quick) / 60x (thorough) the file size through bounded files; only space errors allowed, nothing lost or reordered, reading+ACK succeed on the full file, after every ACK held pages <= root + chain pages from the last ACKed event's start page to the tail + 1, pending chunks/flushes succeed after a drain; every 5th case adds failing syncs (flush failing in Commit must be retried cleanly).",
+         "Producer/consumer histories pushing >=12x (quick) / 60x (thorough) the file size through bounded files; only space errors allowed, nothing lost or reordered, reading+ACK succeed on the full file, after every ACK held pages <= root + chain pages from the last ACKed event's start page to the tail + 1, pending chunks/flushes succeed after a drain; every 5th case adds failing syncs (flush failing in Commit must be retried cleanly); a quarter of the cases fill a fresh file to the last page before the first ACK (a no-space error from ACK is a violation).",
          "DESIGN.md 5 (C12)", SIM),
  "C17": ("exploration", "runtime monitoring: counter/callback oracle evaluated after every step of model-driven queue programs",
          "After every step of generated producer/consumer/reopen programs Pending == Active == flushed - acked, Reader.Available == flushed(at Begin) - consumed, Flushed/ACKed callback totals equal the model's totals (bracketed by what explicit flushes and the reader prove), OnQueueInit after reopen, queue header page counter == pages held; every 5th case injects I/O errors into flush/ACK transactions (a failed call moves no counter and fires no callback).",
@@ -57,7 +57,7 @@ CHECKS = {
          "Producer/consumer histories recorded on the simulated disk with every Writer call and ACK bracketed by markers carrying flushed/ACKed totals; every I/O boundary after queue creation is crashed with lost-write subsets; the recovered queue must deliver exactly events [acked', flushed') for an allowed pair (before/after the call in progress, all-or-nothing), report the matching Pending, and accept+deliver appended events.",
          "DESIGN.md 5 (C06)", SIM),
  "C13": ("exploration", "runtime monitoring: consumer-side FIFO oracle with independently computable event contents + Go race detector + state-based deadlock detector, yields injected at commit hook points of flush and ACK transactions",
-         "Free-running producer and consumer goroutines on one queue under the race detector (unbounded and nearly-full bounded files); consumer must receive exactly events 0,1,2,... byte-identical, every ACK must succeed, everything arrives after the final flush, Pending==0 and callback totals ==N at the end; evidence lists the (actor step @ other actor's commit point) pairs observed. Every 4th case enumerates preemption-bounded schedules of a producer actor and a consumer actor (read transaction kept open across yield points, ACK batches) with the cooperative scheduler.",
+         "Free-running producer and consumer goroutines on one queue under the race detector (unbounded and nearly-full bounded files; every 8th case holds the consumer back until the producer hit the full condition); consumer must receive exactly events 0,1,2,... byte-identical, every ACK must succeed, everything arrives after the final flush, Pending==0 and callback totals ==N at the end; evidence lists the (actor step @ other actor's commit point) pairs observed. Every 4th case enumerates preemption-bounded schedules of a producer actor and a consumer actor (read transaction kept open across yield points, ACK batches) with the cooperative scheduler.",
          "DESIGN.md 5 (C13)", SIM + "; Go race detector"),
  "C03": ("exploration", "runtime monitoring: model-based differential execution on a simulated disk with controlled writer stalls (+race detector slice)",
          "Real txfile code is driven by PRNG-generated transaction programs on a simulated disk; a sequential page model is compared in a read transaction after every transaction end, on every in-transaction read and after reopen, while a gate stalls the background writer so that several transactions' page writes share one writer batch. Held-on-explored-executions assurance; right level because the property quantifies over histories and writer timings that cannot be enumerated.",
